@@ -350,6 +350,9 @@ pub fn plan_for(id: &str) -> Option<Plan> {
         );
             // internal callbacks attempted from inside a flash loan (the only time the vault's loan state is non-trivial)
             p.parts.push(vault_part(1500, 60_000));
+            // flow removal by strangers in the life of an incentive contract: all flow slots taken, flows past their end,
+            // expanded, partly claimed (sampled; the matrix above has the incentive with a handful of fresh flows only)
+            p.parts.push(PlanPart { scen: scen::<scen::incent::Incent>(), quick_runs: 1500, thorough_runs: 60_000 });
             Some(p)
         }
         "C18" => Some(all_plan(
